@@ -165,6 +165,14 @@ func (h *hier) source() string {
 			sb.WriteString("    function vt() { return static::tag(); }\n")
 			// a chain of late-bound static calls: the runtime class must survive every hop
 			sb.WriteString("    static function s1() { return static::s2(); }\n    static function s2() { return static::tag(); }\n    function v2() { return static::s1(); }\n")
+			// a chain of parent:: calls through every definer above, with gaps where a class does not define it
+			if h.Parent[i] >= 0 && h.nearest(h.DefM, h.Parent[i]) >= 0 {
+				fmt.Fprintf(&sb, "    function ch() { return '%s>' . parent::ch(); }\n", cname(i))
+			} else {
+				fmt.Fprintf(&sb, "    function ch() { return '%s'; }\n", cname(i))
+			}
+			// factories: new self is the class that wrote it, new static the class it was called on
+			sb.WriteString("    static function mk() { return new self('x'); }\n    static function mks() { return new static('x'); }\n")
 			if h.Parent[i] >= 0 && h.nearest(h.DefM, h.Parent[i]) >= 0 {
 				sb.WriteString("    function vp() { return parent::m(); }\n")
 			}
@@ -184,7 +192,9 @@ func (h *hier) source() string {
 			fmt.Fprintf(&sb, "try { acc%s(new %s('x')); __obs(\"th:%d:%s\", true); } catch (Throwable $e) { __obs(\"th:%d:%s\", false); __obs(\"thmsg:%d:%s\", $e->getMessage()); }\n", t, cname(x), x, t, x, t, x, t)
 			fmt.Fprintf(&sb, "try { throw new %s('x'); } catch (%s $e) { __obs(\"ca:%d:%s\", true); } catch (Throwable $e) { __obs(\"ca:%d:%s\", false); }\n", cname(x), t, x, t, x, t)
 		}
-		for _, f := range []string{"m", "vs", "vt", "vp", "v2"} {
+		fmt.Fprintf(&sb, "try { __obs(\"dmk:%d\", get_class(%s::mk())); } catch (Throwable $e) { __obs(\"!dmk:%d\", $e->getMessage()); }\n", x, cname(x), x)
+		fmt.Fprintf(&sb, "try { __obs(\"dmks:%d\", get_class(%s::mks())); } catch (Throwable $e) { __obs(\"!dmks:%d\", $e->getMessage()); }\n", x, cname(x), x)
+		for _, f := range []string{"m", "vs", "vt", "vp", "v2", "ch"} {
 			fmt.Fprintf(&sb, "try { __obs(\"d%s:%d\", (new %s('x'))->%s()); } catch (Throwable $e) { __obs(\"!d%s:%d\", $e->getMessage()); }\n", f, x, cname(x), f, f, x)
 		}
 		fmt.Fprintf(&sb, "try { __obs(\"ds1:%d\", %s::s1()); } catch (Throwable $e) { __obs(\"!ds1:%d\", $e->getMessage()); }\n", x, cname(x), x)
@@ -289,6 +299,26 @@ func c08Judge(pool *sb.Pool, rec *sb.Rec, h *hier) []*failure {
 				chk("static::", fmt.Sprintf("dvt:%d", x), t, "tag", true, dist(x, d)+"-"+dist(x, t))
 				chk("static::chain", fmt.Sprintf("ds1:%d", x), t, "tag", true, dist(x, d)+"-"+dist(x, t))
 				chk("static::chain-from-instance", fmt.Sprintf("dv2:%d", x), t, "tag", true, dist(x, d)+"-"+dist(x, t))
+			}
+			// parent:: chain: every definer from the nearest one up to the root-most one, in order
+			var chain []string
+			for c := d; c >= 0; c = h.nearest(h.DefM, h.Parent[c]) {
+				chain = append(chain, cname(c))
+				if h.Parent[c] < 0 {
+					break
+				}
+			}
+			if got, ok := o[fmt.Sprintf("dch:%d", x)]; !ok {
+				mk(fmt.Sprintf("cell:dispatch:parent::chain:len%d:error", len(chain)), fmt.Sprintf("parent:: chain on a %s object raised %s", cname(x), clip(o[fmt.Sprintf("!dch:%d", x)], 160)))
+			} else if want := "s:\"" + strings.Join(chain, ">") + "\""; got != want {
+				mk(fmt.Sprintf("cell:dispatch:parent::chain:len%d", len(chain)), fmt.Sprintf("parent:: chain on a %s object: want %s got %s", cname(x), want, got))
+			}
+			// factories
+			if got, ok := o[fmt.Sprintf("dmk:%d", x)]; ok && got != fmt.Sprintf("s:%q", cname(d)) {
+				mk("cell:dispatch:new-self:"+dist(x, d), fmt.Sprintf("%s::mk() (new self written in %s): want %s got %s", cname(x), cname(d), cname(d), got))
+			}
+			if got, ok := o[fmt.Sprintf("dmks:%d", x)]; ok && got != fmt.Sprintf("s:%q", cname(x)) {
+				mk("cell:dispatch:new-static:"+dist(x, d), fmt.Sprintf("%s::mks() (new static): want %s got %s", cname(x), cname(x), got))
 			}
 			// vp exists in class c (defining m) only if an ancestor of c defines m; find nearest class from x that has vp
 			for c := x; c >= 0; c = h.Parent[c] {
@@ -502,7 +532,7 @@ func TestC08(t *testing.T) {
 	cfg := sb.LoadConfig("C08")
 	rec := sb.NewRec(cfg)
 	defer rec.Flush()
-	rec.R.Rule = "complete enumeration of all hierarchies with <= 3 classes (single-inheritance forests below Exception) and <= 2 interfaces (extends DAGs), all implements subsets and all placements of an overridable method and of a static method; seeded hierarchies up to 5 classes + 4 interfaces; per hierarchy all (object class, type) pairs through instanceof, a typed parameter and catch, and all (object class, call form) pairs through $o->m(), parent::, self::, static:: (also through a chain of two static:: hops started from Class::s1() and from an instance); plus an enumeration of structural (like) cases over class chains of depth <= 3. Non-trivial = a hierarchy with an interface edge or a chain of length >= 2; distinct by hierarchy."
+	rec.R.Rule = "complete enumeration of all hierarchies with <= 3 classes (single-inheritance forests below Exception) and <= 2 interfaces (extends DAGs), all implements subsets and all placements of an overridable method and of a static method; seeded hierarchies up to 5 classes + 4 interfaces; per hierarchy all (object class, type) pairs through instanceof, a typed parameter and catch, and all (object class, call form) pairs through $o->m(), parent::, self::, static:: (also through a chain of two static:: hops started from Class::s1() and from an instance), a chain of parent:: calls through every definer, new self / new static factories called through subclasses; all subsets of method definers on linear chains of 4 and 5 classes; plus an enumeration of structural (like) cases over class chains of depth <= 3. Non-trivial = a hierarchy with an interface edge or a chain of length >= 2; distinct by hierarchy."
 	pool := &sb.Pool{}
 	defer pool.Close()
 	dl := time.Now().Add(budget(cfg, 60, 700))
@@ -562,6 +592,28 @@ func TestC08(t *testing.T) {
 					rec.Fail(f.Key, f.Detail, f.Case)
 				}
 			})
+		}
+	}
+	// linear chains of 4 and 5 classes, every subset of method definers (class 0 always defines):
+	// parent:: / static:: / self:: across gaps of one, two and three classes
+	for _, n := range []int{4, 5} {
+		for mask := 0; mask < 1<<(n-1); mask++ {
+			idx++
+			if !cfg.Mine(idx) {
+				continue
+			}
+			h := &hier{Parent: make([]int, n), IExt: [][]int{}, Impl: make([][]int, n), DefM: make([]bool, n), DefTag: make([]bool, n)}
+			for c := 0; c < n; c++ {
+				h.Parent[c] = c - 1
+				h.DefM[c] = c == 0 || mask&(1<<(c-1)) != 0
+				h.DefTag[c] = c == 0 || (mask>>(c-1))&1 == c%2
+			}
+			id, _ := json.Marshal(h)
+			rec.NonTrivial(string(id))
+			rec.Label(fmt.Sprintf("hier.chain%d", n), string(id))
+			for _, f := range c08Judge(pool, rec, h) {
+				rec.Fail(f.Key, f.Detail, f.Case)
+			}
 		}
 	}
 	for i, c := range likeCases() {
